@@ -412,13 +412,13 @@ def _compress_tiles(
             # else have 1 chunk per "sample"
             _chunks = (1, *meta.tile.yx)
 
-        if data.chunksize != _chunks:
-            data = data.rechunk(_chunks)
+        # compare nothing, just ask: `chunksize` is only the LARGEST chunk per axis,
+        # irregular chunks like (8, 16, 16) would pass for 16px tiles
+        data = data.rechunk(_chunks)
     else:
         assert meta.num_planes == 1
         src_ydim = 0
-        if data.chunksize != meta.chunks:
-            data = data.rechunk(meta.chunks)
+        data = data.rechunk(meta.chunks)
 
     encoder = _mk_tile_compressor(meta, sample_idx)
 
